@@ -1,3 +1,6 @@
 reg("C37", "post-operation invariant monitor on the real DiGraph vs a mirror adjacency set; lasso detector on the sort loop",
     "Every operation sequence explored (random to length 12 over <=6 nodes; all sequences over 3 nodes to a fixed depth) is executed on the real DiGraph; after each operation sorted_nodes must be a permutation of the remaining nodes with every edge forward. Held on the sequences executed, not a proof.",
     "assumes the API preconditions (only predecessor-free nodes removed, no duplicate edges, no edges added while a node is half-removed); cycles are C18's subject")
+reg("C38", "differential monitor: real parse_mount_table/get_mount/on_cifs/on_same_mount vs component-prefix reference over generated mount outputs",
+    "Generated mount outputs (Linux/macOS formats, nested mounts, string-prefix siblings) are parsed by the real parser and every lookup is compared with the longest component-prefix mount of that table; held on the (table, path) pairs executed.",
+    "oracle is relative to the table pydra's parser keeps; real `mount` is not invoked")
